@@ -153,13 +153,19 @@ func CrashCase(c *core.Case, plan CrashPlan, p int) {
 		run.Count("points_beyond_end_of_golden_run", 1)
 		return
 	}
-	run.Eval(1)
 	net.Halt = false
 	net.AfterStimulus = nil
 	evs := victim.Dur.Snapshot()
 	if p > len(evs) {
 		p = len(evs)
 	}
+	if plan.Second && !(p > 0 && strings.Contains(evs[p-1].Desc, "ConsensusState ")) {
+		// second-crash plans take as first crash only the points right after a consensus-state save (the block is fully
+		// applied; what follows is only in unsynced buffers)
+		run.Count("second_crash_first_points_skipped", 1)
+		return
+	}
+	run.Eval(1)
 	// what the victim had published (own messages whose fsync had returned) and committed before p
 	published := map[signKey]string{}
 	for _, e := range victim.Tr.Since(0) {
